@@ -118,20 +118,84 @@ Record node := {
 
 Inductive outcome := Rejected | Recovered (nd : node).
 
-(* RecoverNode: check the configuration; restore the newest snapshot; replay every later entry of the log
-   (GetLog fails if an entry after the snapshot is missing); write a full snapshot of the result at the last
-   index with the new configuration; delete the whole log. *)
+(* RecoverNode as the sequence of its effects, in the order of the code.  An attempt can fail (an I/O error is
+   returned) or die after any of them; whatever it leaves in raft/recovery.db* is removed when the next attempt starts. *)
+Inductive mstep :=
+| MRestore          (* newest snapshot (or nothing) -> recovery.db *)
+| MReplay           (* every log entry after it is read (GetLog) and, if a command, applied to recovery.db *)
+| MCheckpoint       (* recovery.db-wal folded into recovery.db *)
+| MWriteSnapshot    (* Create / Persist / Close: a full snapshot at the last index with the new configuration becomes visible *)
+| MDeleteLog.       (* DeleteRange(first, last) *)
+Definition recovery_steps := [MRestore; MReplay; MCheckpoint; MWriteSnapshot; MDeleteLog].
+
+Record att := { a_node : node; a_scratch : db; a_last : nat }.   (* the node on disk, recovery.db, lastIndex *)
+
+Definition snap_index (nd : node) : nat := match n_snap nd with Some (k, _) => k | None => O end.
+Definition snap_db (nd : node) : db := match n_snap nd with Some (_, d) => d | None => empty_db end.
+Definition log_last (nd : node) : nat := (n_first nd + List.length (n_log nd) - 1)%nat.   (* LastIndex; n_first - 1 if the log is empty *)
+
+Definition start (nd : node) : att := {| a_node := nd; a_scratch := empty_db; a_last := snap_index nd |}.
+
+(* None: the step itself fails (an entry after the snapshot is not in the log any more) *)
+Definition do_step (peers : list server) (m : mstep) (a : att) : option att :=
+  let nd := a_node a in
+  match m with
+  | MRestore => Some {| a_node := nd; a_scratch := snap_db nd; a_last := snap_index nd |}
+  | MReplay =>
+    let k := snap_index nd in
+    if Nat.ltb (S k) (n_first nd) && Nat.leb (S k) (log_last nd) then None
+    else Some {| a_node := nd;
+                 a_scratch := replay (step (n_fk nd)) (skipn (S k - n_first nd) (n_log nd)) (a_scratch a);
+                 a_last := Nat.max k (log_last nd) |}
+  | MCheckpoint => Some a
+  | MWriteSnapshot =>
+    Some {| a_node := {| n_fk := n_fk nd; n_snap := Some (a_last a, a_scratch a); n_first := n_first nd;
+                         n_log := n_log nd; n_conf := peers |};
+            a_scratch := a_scratch a; a_last := a_last a |}
+  | MDeleteLog =>
+    Some {| a_node := {| n_fk := n_fk nd; n_snap := n_snap nd; n_first := S (a_last a); n_log := []; n_conf := n_conf nd |};
+            a_scratch := a_scratch a; a_last := a_last a |}
+  end.
+
+Fixpoint run (peers : list server) (l : list mstep) (a : att) : att * bool :=
+  match l with
+  | [] => (a, true)
+  | m :: r => match do_step peers m a with Some a' => run peers r a' | None => (a, false) end
+  end.
+
+(* an attempt that gets through the first n effects and then fails or dies: what is on disk afterwards *)
+Definition partial (peers : list server) (n : nat) (nd : node) : node :=
+  if negb (check_configuration peers) then nd
+  else a_node (fst (run peers (firstn n recovery_steps) (start nd))).
+
+(* RecoverNode as called by Store.Open (which then renames the peers file) *)
 Definition recover (nd : node) (peers : list server) : outcome :=
   if negb (check_configuration peers) then Rejected
-  else
-    let '(k, base) := match n_snap nd with Some (k, d) => (k, d) | None => (O, empty_db) end in
-    let last := (n_first nd + List.length (n_log nd) - 1)%nat in          (* LastIndex; n_first - 1 if the log is empty *)
-    if Nat.ltb (S k) (n_first nd) && Nat.leb (S k) last then Rejected       (* entry k+1 is not in the log any more *)
-    else
-      let later := skipn (S k - n_first nd) (n_log nd) in
-      let d := replay (step (n_fk nd)) later base in
-      Recovered {| n_fk := n_fk nd; n_snap := Some (Nat.max k last, d);
-                   n_first := S (Nat.max k last); n_log := []; n_conf := peers |}.
+  else match run peers recovery_steps (start nd) with
+       | (a, true) => Recovered (a_node a)
+       | (_, false) => Rejected
+       end.
+
+(* the points at which the driver makes an attempt fail (I/O error) or die (crash image), and how far the attempt got *)
+Inductive point := PList | POpenSnapshot | PGetLogFirst | PGetLogLast | PCreate | PSinkWrite | PSinkClose
+                 | PAfterSinkClose | PFirstIndex | PDeleteRange | PAfterDeleteRange.
+Definition steps_done (p : point) : nat :=
+  match p with
+  | PList | POpenSnapshot => 0
+  | PGetLogFirst | PGetLogLast => 1
+  | PCreate | PSinkWrite | PSinkClose => 3
+  | PAfterSinkClose | PFirstIndex | PDeleteRange => 4
+  | PAfterDeleteRange => 5
+  end.
+(* a point that is not reached lets the attempt complete (the driver's attempts do not rename the peers file) *)
+Definition reached (nd : node) (p : point) : bool :=
+  match p with
+  | POpenSnapshot => match n_snap nd with Some _ => true | None => false end
+  | PGetLogFirst | PGetLogLast => Nat.leb (S (snap_index nd)) (log_last nd)
+  | _ => true
+  end.
+Definition failed_attempt (peers : list server) (nd : node) (f : point * bool) : node :=   (* bool: died (crash) rather than failed *)
+  partial peers (if reached nd (fst f) then steps_done (fst f) else 5) nd.
 
 (* what a node holds once it is opened: raft restores the newest snapshot, then applies the log after it *)
 Definition contents (nd : node) : db :=
@@ -183,6 +247,7 @@ Record case := {
   c_hist : list (entry cmd);         (* everything the node applied since it was created, entry 1 first (driver's record) *)
   c_live : db;                       (* dump of the live node just before shutdown *)
   c_peers : list server;             (* the peers file *)
+  c_faults : list (point * bool);    (* recovery attempts that failed / died before the one that completed *)
   c_ok : bool;                       (* Open with the peers file succeeded *)
   c_db : db;                         (* dump after the re-open (after a failed Open: re-opened without the file) *)
   c_conf : list server;              (* configuration after the re-open *)
@@ -202,8 +267,9 @@ Definition wf_b (nd : node) (h : list (entry cmd)) : bool :=
 Definition check_case (c : case) : bool :=
   wf_b (c_node c) (c_hist c)
   && db_eqb (c_live c) (replay (step (n_fk (c_node c))) (c_hist c) empty_db)
-  && match recover (c_node c) (c_peers c) with
-     | Rejected => negb (c_ok c) && db_eqb (c_db c) (contents (c_node c)) && conf_eqb (c_conf c) (n_conf (c_node c))
+  && let nd1 := fold_left (failed_attempt (c_peers c)) (c_faults c) (c_node c) in
+     match recover nd1 (c_peers c) with
+     | Rejected => negb (c_ok c) && db_eqb (c_db c) (contents nd1) && conf_eqb (c_conf c) (n_conf nd1)
      | Recovered nd' =>
        c_ok c && db_eqb (c_db c) (contents nd') && conf_eqb (c_conf c) (n_conf nd')
        && match n_snap nd' with Some (k, _) => Nat.eqb k (c_last c) | None => false end
